@@ -460,3 +460,258 @@ Section Loop.
         split; [exact A | split; [exact B | intros k [E|E]; [inversion E; subst; congruence | eauto]]].
   Qed.
 End Loop.
+
+(* ------------------------------------------------------------------ every (condition, element) pair is visited in a pass *)
+Definition all_occs (gs : list (nat * list occ)) : list occ := concat (map (fun g : nat * list occ => snd g) gs).
+
+Lemma in_all_occs : forall o gs, In o (all_occs gs) <-> exists g, In g gs /\ In o (snd g).
+Proof.
+  intros o gs. unfold all_occs. rewrite in_concat. split.
+  - intros [l [Hl Ho]]. apply in_map_iff in Hl. destruct Hl as [g [E Hg]]. subst. eauto.
+  - intros [g [Hg Ho]]. exists (snd g). split; auto. apply in_map_iff. eauto.
+Qed.
+
+Lemma group_add_in : forall x gs o, In o (all_occs (group_add x gs)) <-> o = snd x \/ In o (all_occs gs).
+Proof.
+  intros x gs o. induction gs as [|[k l] gs IH]; simpl.
+  - unfold all_occs. simpl. split; intros [H|H]; auto.
+  - destruct (Nat.eqb k (fst x)).
+    + unfold all_occs in *. simpl. rewrite !in_app_iff. simpl. intuition (subst; auto).
+    + unfold all_occs in *. simpl. rewrite !in_app_iff. rewrite IH. intuition (subst; auto).
+Qed.
+
+Lemma fold_group_add_in : forall xs gs o,
+  In o (all_occs (fold_left (fun gs x => group_add x gs) xs gs)) <-> In o (map snd xs) \/ In o (all_occs gs).
+Proof.
+  induction xs as [|x xs IH]; intros gs o; simpl.
+  - tauto.
+  - rewrite IH, group_add_in. split; intros [H|H]; auto; destruct H; auto.
+Qed.
+
+Lemma insert_occ_in : forall x l o, In o (insert_occ x l) <-> o = x \/ In o l.
+Proof.
+  induction l as [|y l IH]; intros o; simpl.
+  - split; intros [H|H]; auto.
+  - destruct (occ_lt x y); simpl.
+    + split; intros [H|H]; auto.
+    + rewrite IH. split; intros [H|H]; auto; destruct H; auto.
+Qed.
+
+Lemma sort_occ_in : forall l o, In o (sort_occ l) <-> In o l.
+Proof.
+  induction l as [|x l IH]; intros o; simpl; [tauto|].
+  unfold sort_occ in *. simpl. rewrite insert_occ_in, IH. split; intros [H|H]; auto.
+Qed.
+
+Lemma insert_group_in : forall g l o, In o (all_occs (insert_group g l)) <-> In o (snd g) \/ In o (all_occs l).
+Proof.
+  induction l as [|h l IH]; intros o; simpl.
+  - unfold all_occs. simpl. rewrite app_nil_r. tauto. 
+  - destruct (occ_lt (head_occ g) (head_occ h)).
+    + unfold all_occs. simpl. rewrite !in_app_iff. tauto.
+    + unfold all_occs in *. simpl. rewrite !in_app_iff, IH. tauto.
+Qed.
+
+Lemma fold_insert_group_in : forall gs o, In o (all_occs (fold_right insert_group [] gs)) <-> In o (all_occs gs).
+Proof.
+  induction gs as [|g gs IH]; intros o; simpl; [tauto|].
+  rewrite insert_group_in, IH. unfold all_occs. simpl. rewrite in_app_iff. tauto.
+Qed.
+
+Lemma map_sort_in : forall gs o,
+  In o (all_occs (map (fun g : nat * list occ => (fst g, sort_occ (snd g))) gs)) <-> In o (all_occs gs).
+Proof.
+  induction gs as [|g gs IH]; intros o; simpl; [tauto|].
+  unfold all_occs in *. simpl. rewrite !in_app_iff, sort_occ_in, IH. tauto.
+Qed.
+
+Lemma elems_occ_in : forall ci es k0 k e, nth_error es k = Some e -> In (e_rx e, (ci, k0 + k)) (elems_occ ci k0 es).
+Proof.
+  induction es as [|x es IH]; intros k0 k e H; destruct k; simpl in *; try discriminate.
+  - inversion H; subst. left. f_equal. f_equal. lia.
+  - right. replace (k0 + S k) with (S k0 + k) by lia. apply IH. exact H.
+Qed.
+
+Lemma conds_occ_in : forall cs ci0 ci c k e, nth_error cs ci = Some c -> nth_error (c_elems c) k = Some e ->
+  In (e_rx e, (ci0 + ci, k)) (conds_occ ci0 cs).
+Proof.
+  induction cs as [|x cs IH]; intros ci0 ci c k e Hc He; destruct ci; simpl in *; try discriminate.
+  - inversion Hc; subst. apply in_or_app. left. rewrite Nat.add_0_r.
+    pose proof (elems_occ_in ci0 _ 0 _ _ He) as K. simpl in K. exact K.
+  - apply in_or_app. right. replace (ci0 + S ci) with (S ci0 + ci) by lia. eapply IH; eauto.
+Qed.
+
+Lemma visit_order_complete : forall cs ci c k, nth_error cs ci = Some c -> k < length (c_elems c) ->
+  In (ci, k) (visit_order cs).
+Proof.
+  intros cs ci c k Hc Hk. destruct (nth_error (c_elems c) k) as [e|] eqn:He; [|apply nth_error_None in He; lia].
+  unfold visit_order.
+  change (In (ci, k) (all_occs (fold_right insert_group []
+            (map (fun g : nat * list occ => (fst g, sort_occ (snd g)))
+                 (fold_left (fun gs x => group_add x gs) (conds_occ 0 cs) []))))).
+  rewrite fold_insert_group_in, map_sort_in, fold_group_add_in. left.
+  apply in_map_iff. exists (e_rx e, (ci, k)). split; auto.
+  pose proof (conds_occ_in cs 0 ci c k e Hc He) as K. simpl in K. exact K.
+Qed.
+
+(* ------------------------------------------------------------------ the loop ends with every sequence where the plain scan puts it *)
+Definition sumlen (cs : list cond) : nat := fold_right (fun c a => length (c_elems c) + a) 0 cs.
+Definition total_n (ps : list progress) : nat := fold_right (fun p a => p_n p + a) 0 ps.
+
+Lemma total_n_update : forall ps i p p', nth_error ps i = Some p ->
+  total_n (update i (fun _ => p') ps) + p_n p = total_n ps + p_n p'.
+Proof.
+  induction ps as [|q ps IH]; intros i p p' H; destruct i; simpl in *; try discriminate.
+  - inversion H; subst. lia.
+  - specialize (IH _ _ p' H). lia.
+Qed.
+
+Lemma Forall2_map_progress0 : forall F tbl s cs, Forall2 (fun c p => Inv F tbl s c p) cs (map (fun _ => progress0) cs).
+Proof. intros. induction cs; simpl; constructor; auto. apply Inv0. Qed.
+
+Lemma total_bound : forall cs ps, Forall2 (fun c p => p_n p <= length (c_elems c)) cs ps -> total_n ps <= sumlen cs.
+Proof. intros cs ps H. induction H; simpl; auto. unfold total_n, sumlen in *. simpl. lia. Qed.
+
+Lemma Forall2_weaken : forall A B (R1 R2 : A -> B -> Prop) l1 l2, (forall a b, R1 a b -> R2 a b) -> Forall2 R1 l1 l2 -> Forall2 R2 l1 l2.
+Proof. intros A B R1 R2 l1 l2 H F. induction F; constructor; auto. Qed.
+
+Section Loop2.
+  Variables (F : nat) (guard : bool) (tbl : list rx) (s : source) (cs : list cond).
+  Hypothesis Hall : forall c, In c cs -> tbl_ok F guard tbl c.
+
+  Lemma GI_bound : forall ps, GI F tbl s cs ps -> total_n ps <= sumlen cs.
+  Proof.
+    intros ps H. apply total_bound. eapply Forall2_weaken; [|exact H]. intros a b [Hn _]. exact Hn.
+  Qed.
+
+  Lemma visit_total : forall ps ag o, GI F tbl s cs ps ->
+    total_n ps <= total_n (fst (vis F guard tbl s cs (ps, ag) o)) /\
+    (ag = false -> snd (vis F guard tbl s cs (ps, ag) o) = true -> total_n ps < total_n (fst (vis F guard tbl s cs (ps, ag) o))).
+  Proof.
+    intros ps ag [ci k] HG. unfold vis, visit. simpl.
+    destruct (nth_error cs ci) as [c|] eqn:Ec; [|simpl; split; [lia | intros; subst; discriminate]].
+    destruct (nth_error ps ci) as [p|] eqn:Ep; [|simpl; split; [lia | intros; subst; discriminate]].
+    simpl.
+    pose proof (total_n_update ps ci p (attempt F guard tbl s c k p) Ep) as T.
+    assert (Hinv : Inv F tbl s c p) by (exact (Forall2_nth _ _ _ _ _ _ _ _ HG Ec Ep)).
+    destruct (inv_attempt F guard tbl s c (ok_of_nth F guard tbl cs Hall _ _ Ec) k p Hinv) as [_ Hstep].
+    split.
+    - destruct Hstep as [E | [_ E]]; lia.
+    - intros Ea Hf. subst ag. simpl in Hf. unfold advanced_incomplete in Hf.
+      destruct (Nat.eqb_spec (p_n (attempt F guard tbl s c k p)) (p_n p)); [discriminate|].
+      destruct Hstep as [E | [_ E]]; lia.
+  Qed.
+
+  Lemma fold_total : forall os ps ag, GI F tbl s cs ps ->
+    total_n ps <= total_n (fst (fold_left (vis F guard tbl s cs) os (ps, ag))) /\
+    (ag = false -> snd (fold_left (vis F guard tbl s cs) os (ps, ag)) = true ->
+     total_n ps < total_n (fst (fold_left (vis F guard tbl s cs) os (ps, ag)))).
+  Proof.
+    induction os as [|o os IH]; intros ps ag HG; simpl.
+    - split; [lia | intros; subst; discriminate].
+    - destruct (vis F guard tbl s cs (ps, ag) o) as [ps1 ag1] eqn:E.
+      pose proof (visit_total ps ag o HG) as [V1 V2]. rewrite E in V1, V2. simpl in V1, V2.
+      assert (HG1 : GI F tbl s cs ps1).
+      { replace ps1 with (fst (vis F guard tbl s cs (ps, ag) o)) by (rewrite E; reflexivity). apply visit_GI; auto. }
+      destruct (IH ps1 ag1 HG1) as [I1 I2]. split; [lia|].
+      intros Ea Hf. destruct ag1.
+      + specialize (V2 Ea eq_refl). lia.
+      + specialize (I2 eq_refl Hf). lia.
+  Qed.
+
+  Lemma loop_spec : forall fuel ps, GI F tbl s cs ps -> sumlen cs - total_n ps < fuel ->
+    GI F tbl s cs (group_loop F guard tbl s cs (visit_order cs) fuel ps) /\
+    forall ci c p', nth_error cs ci = Some c ->
+      nth_error (group_loop F guard tbl s cs (visit_order cs) fuel ps) ci = Some p' ->
+      p_n p' = total F tbl s c.
+  Proof.
+    induction fuel as [|f IH]; intros ps HG Hf; [lia|].
+    simpl. unfold pass. fold (vis F guard tbl s cs).
+    destruct (fold_left (vis F guard tbl s cs) (visit_order cs) (ps, false)) as [ps1 again] eqn:E.
+    assert (HG1 : GI F tbl s cs ps1).
+    { replace ps1 with (fst (fold_left (vis F guard tbl s cs) (visit_order cs) (ps, false))) by (rewrite E; reflexivity).
+      apply fold_GI; auto. }
+    destruct again.
+    - (* another pass: some sequence advanced *)
+      pose proof (fold_total (visit_order cs) ps false HG) as [_ T]. rewrite E in T. simpl in T. specialize (T eq_refl eq_refl).
+      pose proof (GI_bound ps1 HG1). apply IH; auto. lia.
+    - split; auto. intros ci c p' Ec Ep'.
+      destruct (Forall2_nth_ex _ _ _ _ _ _ _ HG Ec) as [p [Ep _]].
+      destruct (quiet_fold F guard tbl s cs Hall _ _ _ HG E ci c p p' Ec Ep Ep') as [_ [_ C]].
+      pose proof (Forall2_nth _ _ _ _ _ _ _ _ HG1 Ec Ep') as Hinv.
+      pose proof (ok_of_nth F guard tbl cs Hall _ _ Ec) as Hok.
+      destruct (Nat.lt_ge_cases (p_n p') (length (c_elems c))) as [L | L].
+      + apply (stuck_total F guard tbl s c Hok). apply (C (p_n p')); auto.
+        apply visit_order_complete with (c := c); auto.
+      + apply (stuck_total F guard tbl s c Hok). split; auto.
+        destruct Hinv as [Hn _]. unfold adv. rewrite complete_attempt; auto. lia.
+  Qed.
+
+  Theorem source_eval_spec : forall ci c, nth_error cs ci = Some c ->
+    exists p, nth_error (source_eval F guard tbl cs s) ci = Some p /\
+              p_n p = seq_spec F tbl s (c_elems c) 0 0 /\ p_n p <= length (c_elems c).
+  Proof.
+    intros ci c Ec. unfold source_eval.
+    assert (HG0 : GI F tbl s cs (map (fun _ => progress0) cs)).
+    { unfold GI. apply Forall2_map_progress0. }
+    assert (Hf : sumlen cs - total_n (map (fun _ : cond => progress0) cs) < loop_fuel cs).
+    { unfold loop_fuel. fold (sumlen cs). lia. }
+    destruct (loop_spec _ _ HG0 Hf) as [HG L].
+    destruct (Forall2_nth_ex _ _ _ _ _ _ _ HG Ec) as [p [Ep Hinv]].
+    exists p. split; auto. split; [apply (L _ _ _ Ec Ep) | apply Hinv].
+  Qed.
+End Loop2.
+
+(* ------------------------------------------------------------------ end to end *)
+Lemma cond_success_spec : forall F tbl s c p, p_n p = seq_spec F tbl s (c_elems c) 0 0 -> p_n p <= length (c_elems c) ->
+  cond_success c p = cond_holds_spec F tbl c s.
+Proof.
+  intros F tbl s c p E L. unfold cond_success, cond_holds_spec. rewrite <- E.
+  set (n := p_n p) in *. set (len := length (c_elems c)) in *.
+  destruct (c_inv c).
+  - destruct (Nat.eqb_spec (S n) len) as [A|A].
+    + replace (len - n) with 1 by lia. reflexivity.
+    + destruct (Nat.leb_spec 2 (len - n)); simpl; auto.
+      assert (len - n = 0) by lia. rewrite H0. reflexivity.
+  - destruct (Nat.eqb_spec n len) as [A|A].
+    + replace (len - n) with 0 by lia. reflexivity.
+    + destruct (Nat.leb_spec 2 (len - n)); simpl; auto.
+      assert (len - n = 1) by lia. rewrite H0. reflexivity.
+Qed.
+
+Theorem conj_selected_spec : forall F guard tbl cn cs st,
+  (forall c, In c cs -> tbl_ok F guard tbl c) ->
+  conj_selected F guard tbl cn cs st = conj_spec F tbl cn cs st.
+Proof.
+  intros F guard tbl cn cs st Hall. apply conj_accounting. intros s ci c _ Ec.
+  destruct (source_eval_spec F guard tbl s cs Hall ci c Ec) as [p [Ep [En Hl]]]. rewrite Ep.
+  apply cond_success_spec; auto.
+Qed.
+
+Theorem stream_selected_spec : forall F guard tbl cn ors st,
+  (forall cs c, In cs ors -> In c cs -> tbl_ok F guard tbl c) ->
+  stream_selected F guard tbl cn ors st = stream_spec F tbl cn ors st.
+Proof.
+  intros F guard tbl cn ors st Hall. unfold stream_selected, stream_spec.
+  induction ors as [|cs ors IH]; simpl; auto.
+  rewrite conj_selected_spec by (intros c Hc; apply (Hall cs c); simpl; auto).
+  f_equal. apply IH. intros cs' c Hcs Hc. apply (Hall cs' c); simpl; auto.
+Qed.
+
+(* the hypothesis of the end-to-end statement, from the facts computed by the analyses *)
+Theorem find_ok_guarded : forall F r, context_sensitive r = true -> 2 <= r_ncap r -> find_ok F true r.
+Proof.
+  intros F r Hc Hn. split; auto. intros data off res off' Hoff H. rewrite find_guard_plain in H by assumption.
+  inversion H; subst. unfold find_agrees. repeat split; auto.
+  destruct (plain F r (skipn off' data)); [|auto]. rewrite Nat.sub_diag, shift_0. auto.
+Qed.
+
+Theorem find_ok_shortcuts_partial : forall F guard r,
+  assertion_free (r_prog r) = true -> facts_sound r -> 2 <= r_ncap r ->
+  (N.eqb (f_min (r_facts r)) (f_max (r_facts r)) && match f_prefix (r_facts r) with [] => true | _ => false end
+     && match f_suffix (r_facts r) with [] => false | _ => true end = false) ->
+  find_ok F guard r.
+Proof.
+  intros F guard r Haf Hfs Hn Hw. split; auto. intros data off res off' Hoff H.
+  eapply find_shortcut_plain_partial; eauto.
+Qed.
